@@ -97,17 +97,25 @@ Definition set_draw (t : term) (s : list row) (p : list iline) : term :=
 Definition set_scroll (t : term) (cy off : nat) : term :=
   mkTerm (t_prompt t) (t_query t) (t_matches t) (t_total t) cy off (t_sel t) (t_screen t) (t_prev t).
 
-(* printHighlighted, !hscroll branch: trimRight(line, maxWidth - ellipsisWidth) ++ ellipsis *)
-Definition item_text (maxw : nat) (s : str) : str :=
-  if maxw <? length s then
+(* printHighlighted, !hscroll branch: displayWidth = RunesWidth(line, 0, tabstop, maxWidth); when it is too wide
+   trimRight(line, maxWidth - ellipsisWidth) ++ ellipsis; printColoredString then expands the tabs with a column
+   that runs from the start of the text across all colour segments (processTabs(text, prefixWidth)) *)
+Definition item_text (ts maxw : nat) (s : str) : str :=
+  if maxw <? length (expand ts s) then
     let ew := Nat.min (maxw / 2) 2 in      (* util.Truncate("..", maxWidth/2) *)
+    expand ts (take_width ts (maxw - ew) s) ++ repeat DOT ew
+  else expand ts s.
+(* the prompt string (no tabs in the modelled domain) *)
+Definition prompt_item_text (maxw : nat) (s : str) : str :=
+  if maxw <? length s then
+    let ew := Nat.min (maxw / 2) 2 in
     firstn (maxw - ew) s ++ repeat DOT ew
   else s.
 
 Definition idx_is (o : option nat) (i : nat) : bool := match o with Some j => Nat.eqb i j | None => false end.
 
 (* printItem *)
-Definition print_item (w cy qlen : nat) (sel : list nat) (pos : nat) (m : nat * str) (pr : iline * row) : iline * row :=
+Definition print_item (w ts cy qlen : nat) (sel : list nat) (pos : nat) (m : nat * str) (pr : iline * row) : iline * row :=
   let '(p, r) := pr in
   let cur := Nat.eqb pos cy in
   let selected := memb (fst m) sel in
@@ -117,7 +125,7 @@ Definition print_item (w cy qlen : nat) (sel : list nat) (pos : nat) (m : nat * 
   then pr                                                   (* "Avoid unnecessary redraw" *)
   else
     let maxw := w - 3 in
-    let txt := item_text maxw (snd m) in
+    let txt := item_text ts maxw (snd m) in
     let width := length txt in
     let lblmk := (if 1 <=? w then [if cur then GT else SP] else []) ++
                  (if 2 <=? w then [if selected then GT else SP] else []) in
@@ -127,15 +135,15 @@ Definition print_item (w cy qlen : nat) (sel : list nat) (pos : nat) (m : nat * 
     (mkIL true false cur selected qlen width (Some (fst m)), r2).
 
 (* the loop of printList over consecutive lines; ms = results from the offset on, pos = position of its head *)
-Fixpoint draw_rows (w cy qlen : nat) (sel : list nat) (pos : nat) (ms : list (nat * str))
+Fixpoint draw_rows (w ts cy qlen : nat) (sel : list nat) (pos : nat) (ms : list (nat * str))
                    (prs : list (iline * row)) : list (iline * row) :=
   match prs with
   | [] => []
   | pr :: rest =>
       match ms with
-      | m :: ms' => print_item w cy qlen sel pos m pr :: draw_rows w cy qlen sel (S pos) ms' rest
+      | m :: ms' => print_item w ts cy qlen sel pos m pr :: draw_rows w ts cy qlen sel (S pos) ms' rest
       | [] => (if il_empty (fst pr) then pr else (il_blank, clear_from w 0 (snd pr)))   (* renderEmptyLine *)
-              :: draw_rows w cy qlen sel pos [] rest
+              :: draw_rows w ts cy qlen sel pos [] rest
       end
   end.
 
@@ -146,7 +154,7 @@ Definition print_list_at (c : cfg) (t : term) : term :=
   let start := list_start c in
   let n := max_items c in
   let seg := combine (firstn n (skipn start (t_prev t))) (firstn n (skipn start (t_screen t))) in
-  let seg' := draw_rows (c_w c) (t_cy t) (length (t_query t)) (t_sel t) (t_off t) (skipn (t_off t) (t_matches t)) seg in
+  let seg' := draw_rows (c_w c) (c_tabstop c) (t_cy t) (length (t_query t)) (t_sel t) (t_off t) (skipn (t_off t) (t_matches t)) seg in
   set_draw t (firstn start (t_screen t) ++ map snd seg' ++ skipn (start + n) (t_screen t))
              (firstn start (t_prev t) ++ map fst seg' ++ skipn (start + n) (t_prev t)).
 
@@ -159,7 +167,7 @@ Definition print_list (c : cfg) (t : term) : term :=
 (* printPrompt: the prompt string goes through printHighlighted (clears the line, cut to W-2), then the query *)
 Definition print_prompt (c : cfg) (t : term) : term :=
   let w := c_w c in
-  set_draw t (upd_at 0 (fun r => put 0 (item_text (w - 2) (t_prompt t) ++ t_query t) (clear_from w 0 r)) (t_screen t)) (t_prev t).
+  set_draw t (upd_at 0 (fun r => put 0 (prompt_item_text (w - 2) (t_prompt t) ++ t_query t) (clear_from w 0 r)) (t_screen t)) (t_prev t).
 
 (* printInfoImpl *)
 Definition print_info (c : cfg) (t : term) : term :=
@@ -191,14 +199,14 @@ Definition print_info (c : cfg) (t : term) : term :=
 Definition hdr_logical (c : cfg) : list str :=
   (match c_layout c with LReverse => c_header c | _ => rev (c_header c) end) ++ c_hlines c.
 
-Fixpoint print_header_from (w : nat) (line : nat) (hs : list str) (scr : list row) : list row :=
+Fixpoint print_header_from (w ts : nat) (line : nat) (hs : list str) (scr : list row) : list row :=
   match hs with
   | [] => scr
-  | h :: r => print_header_from w (S line) r
-                (upd_at line (fun row => put 0 ([SP; SP] ++ item_text (w - 3) h) (clear_from w 0 row)) scr)
+  | h :: r => print_header_from w ts (S line) r
+                (upd_at line (fun row => put 0 ([SP; SP] ++ item_text ts (w - 3) h) (clear_from w 0 row)) scr)
   end.
 Definition print_header (c : cfg) (t : term) : term :=
-  set_draw t (print_header_from (c_w c) (prompt_lines c) (hdr_logical c) (t_screen t)) (t_prev t).
+  set_draw t (print_header_from (c_w c) (c_tabstop c) (prompt_lines c) (hdr_logical c) (t_screen t)) (t_prev t).
 
 (* what printAll paints on an erased window, for the scroll position held in t *)
 Definition paint (c : cfg) (t : term) : term :=
